@@ -649,6 +649,61 @@ pub fn stream_of<T: Hash>(v: &T) -> String {
     s
 }
 
+/// the commands of a handler call, in the shape of the table entries (ActorSystem.tla)
+fn cmds_json<A>(out: Out<A>) -> Vec<Value>
+where
+    A: Actor,
+    A::Msg: MsgCodec,
+    A::Timer: SmallInt,
+    A::Random: SmallInt,
+{
+    out.into_iter()
+        .map(|c| match c {
+            Command::Send(d, m) => json!({"k": "send", "dst": usize::from(d), "msg": m.dec(), "t": 0, "key": "", "vals": []}),
+            Command::SetTimer(t, _) => json!({"k": "set", "dst": 0, "msg": 0, "t": t.to_u8(), "key": "", "vals": []}),
+            Command::CancelTimer(t) => json!({"k": "cancel", "dst": 0, "msg": 0, "t": t.to_u8(), "key": "", "vals": []}),
+            Command::ChooseRandom(k, v) => json!({"k": "choose", "dst": 0, "msg": 0, "t": 0, "key": k, "vals": v.iter().map(|x| x.to_u8()).collect::<Vec<_>>()}),
+        })
+        .collect()
+}
+
+/// The handler behind an action called DIRECTLY with an already-owned state (`Cow::Owned`), the way `actor::spawn` calls
+/// handlers -- the model always hands them a fresh `Cow::Borrowed`. Returns (local state afterwards, commands).
+fn owned_call<A>(
+    model: &ActorModel<A, MCfg, Hist>,
+    s: &ActorModelState<A, Hist>,
+    a: &ActorModelAction<A::Msg, A::Timer, A::Random>,
+    ps: &dyn Fn(&A::State) -> Value,
+) -> Option<Value>
+where
+    A: Actor,
+    A::Msg: MsgCodec,
+    A::Timer: SmallInt,
+    A::Random: SmallInt,
+{
+    let (idx, id) = match a {
+        ActorModelAction::Deliver { dst, .. } => (usize::from(*dst), *dst),
+        ActorModelAction::Timeout(id, _) => (usize::from(*id), *id),
+        ActorModelAction::SelectRandom { actor, .. } => (usize::from(*actor), *actor),
+        _ => return None,
+    };
+    if idx >= model.actors.len() || s.crashed[idx] {
+        return None;
+    }
+    let r = std::panic::catch_unwind(std::panic::AssertUnwindSafe(|| {
+        let mut st: Cow<A::State> = Cow::Owned((*s.actor_states[idx]).clone());
+        let mut out = Out::new();
+        match a {
+            ActorModelAction::Deliver { src, msg, .. } => model.actors[idx].on_msg(id, &mut st, *src, msg.clone(), &mut out),
+            ActorModelAction::Timeout(_, t) => model.actors[idx].on_timeout(id, &mut st, t, &mut out),
+            ActorModelAction::SelectRandom { random, .. } => model.actors[idx].on_random(id, &mut st, random, &mut out),
+            _ => {}
+        }
+        json!({"actor": idx, "after": ps(&st), "cmds": cmds_json(out), "panicked": false})
+    }));
+    Some(r.unwrap_or_else(|_| json!({"actor": idx, "after": 0, "cmds": [], "panicked": true})))
+}
+
 /// Enumerates the reachable graph of a real model through the public Model API (identity of states
 /// = canonical projection, NOT the model's own Hash/Eq) and writes one record per state.
 pub fn record_graph<A>(
@@ -706,8 +761,12 @@ pub fn record_graph<A>(
         let mut ignored = vec![];
         let mut zipped: Vec<(Value, Value)> = vec![];
         let mut eq_ok = true;
+        let mut owned: Vec<Value> = vec![];
         for a in actions {
             let aj = action_json(&a);
+            if let Some(o) = owned_call(model, &s, &a, ps) {
+                owned.push(json!({"a": aj, "r": o}));
+            }
             match model.next_state(&s, a) {
                 None => ignored.push(aj),
                 Some(n) => {
@@ -770,7 +829,7 @@ pub fn record_graph<A>(
             "edges": edges, "ignored": ignored, "next_steps_ok": next_steps_ok, "len": s.network.len(),
             "iter_all": iter_all, "iter_all_truncated": iter_all_truncated, "iter_deliv": iter_deliv,
             "stream": stream_of(&s), "has_rep": has_rep, "rep_panicked": rep_panicked, "rep": rep_json,
-            "empty_flows": empty_flows(&s.network), "dead_choices": dead_choices(&s), "eq_ok": eq_ok});
+            "empty_flows": empty_flows(&s.network), "dead_choices": dead_choices(&s), "eq_ok": eq_ok, "owned": owned});
         serde_json::to_writer(&mut *out, &rec).unwrap();
         out.write_all(b"\n").unwrap();
     }
